@@ -20,12 +20,28 @@ func init() {
 // ---------------------------------------------------------------- the JavaScript side
 
 const c08Prelude = `
-var __recv;
+var __recv, __log="", __script={}, __sn=0, __si=0, __objs={};
+function __obj(id){
+  if (!Object.prototype.hasOwnProperty.call(__objs,id)) {
+    var f=function(){ return __play(id); };
+    __objs[id]={__id:id, valueOf:f, toString:f};
+  }
+  return __objs[id];
+}
+function __play(id){
+  __log+=(__log===""?"~":";")+"O"+id;
+  if (__si>=__sn) { __si++; return undefined; }
+  var c=__script[__si++];
+  c.eff();
+  if (c.thr) throw c.thr();
+  return c.res;
+}
 function __v(x){
   if (x===undefined) return "u"; if (x===null) return "n"; if (x===true) return "T"; if (x===false) return "F";
   if (typeof x==="number") return "d"+__hexnum(x);
   if (typeof x==="string") return "s"+__hexstr(x);
   if (x===__recv) return "R";
+  if (typeof x==="object" && Object.prototype.hasOwnProperty.call(x,"__id")) return "O"+x.__id;
   if (Object.prototype.toString.call(x)==="[object Array]") {
     var s="[";
     for (var i=0;i<x.length;i++){ if(i) s+=","; s+= Object.prototype.hasOwnProperty.call(x,i) ? __v(x[i]) : "_"; }
@@ -140,6 +156,8 @@ func jsVal(t string) string {
 		return "a"
 	}
 	switch t[0] {
+	case 'O':
+		return "__obj(" + t[1:] + ")"
 	case 'd':
 		return jsNum(h.HexF64(t[1:]))
 	case 's':
@@ -172,22 +190,37 @@ var c08CallbackMethods = map[string]bool{"every": true, "some": true, "forEach":
 // c08Script builds the program for one history request.
 func c08Script(f []string) string {
 	var sb strings.Builder
-	sb.WriteString("(function(){ var out=\"\", protos=[], log, rets, ci;\n")
+	sb.WriteString("(function(){ var out=\"\", protos=[], rets, ci; __objs={}; __log=\"\"; __sn=0; __si=0;\n")
 	// receiver
-	sb.WriteString("var a=[")
-	es := splitList(strings.TrimPrefix(f[1], "a="))
-	for i, e := range es {
-		if i > 0 {
+	like := strings.HasPrefix(f[1], "o=")
+	if like {
+		parts := strings.SplitN(strings.TrimPrefix(f[1], "o="), "|", 2)
+		sb.WriteString("var a={};")
+		if parts[0] != "-" {
+			fmt.Fprintf(&sb, " a.length=%s;", jsVal(parts[0]))
+		}
+		for i, e := range splitList(parts[1]) {
+			if e != "_" {
+				fmt.Fprintf(&sb, " a[%d]=%s;", i, jsVal(e))
+			}
+		}
+		sb.WriteString(" __recv=a;\n")
+	} else {
+		sb.WriteString("var a=[")
+		es := splitList(strings.TrimPrefix(f[1], "a="))
+		for i, e := range es {
+			if i > 0 {
+				sb.WriteString(",")
+			}
+			if e != "_" {
+				sb.WriteString(jsVal(e))
+			}
+		}
+		if len(es) > 0 && es[len(es)-1] == "_" {
 			sb.WriteString(",")
 		}
-		if e != "_" {
-			sb.WriteString(jsVal(e))
-		}
+		sb.WriteString("]; __recv=a;\n")
 	}
-	if len(es) > 0 && es[len(es)-1] == "_" {
-		sb.WriteString(",")
-	}
-	sb.WriteString("]; __recv=a;\n")
 	sb.WriteString("try {\n")
 	for _, p := range splitList(strings.TrimPrefix(f[2], "p=")) {
 		kv := strings.SplitN(p, ":", 2)
@@ -235,7 +268,7 @@ func c08Script(f []string) string {
 				if name != p[1] {
 					args = append(args, "null")
 				} else {
-					args = append(args, "function(){ var s=\"\"; for (var i=0;i<arguments.length;i++){ s+=(i?\",\":\"\")+__v(arguments[i]); } log+=(log===\"\"?\"~\":\";\")+s; var rv=Object.prototype.hasOwnProperty.call(rets,ci)?rets[ci]:undefined; ci++; return rv; }")
+					args = append(args, "function(){ var s=\"\"; for (var i=0;i<arguments.length;i++){ s+=(i?\",\":\"\")+__v(arguments[i]); } __log+=(__log===\"\"?\"~\":\";\")+s; var rv=Object.prototype.hasOwnProperty.call(rets,ci)?rets[ci]:undefined; ci++; return rv; }")
 				}
 			}
 			for _, a := range splitList(p[2]) {
@@ -262,7 +295,37 @@ func c08Script(f []string) string {
 			for _, r := range splitList(p[3]) {
 				rets = append(rets, jsVal(r))
 			}
-			fmt.Fprintf(&sb, "log=\"\"; ci=0; rets=[%s]; var r; try { r=__v(a.%s(%s)); } catch(e) { r=__err(e); } out+=r+log+\"|\";", strings.Join(rets, ","), name, strings.Join(args, ","))
+			// scripted conversions of object arguments / of an object-valued length
+			sb.WriteString("__script={}; __sn=0; __si=0; ")
+			if len(p) > 4 {
+				for i, c := range splitList(p[4]) {
+					er := strings.SplitN(c, "~", 2)
+					eff := ""
+					switch er[0][0] {
+					case 'p':
+						eff = "__recv[__recv.length]=" + jsVal(er[0][1:]) + ";"
+					case 'l':
+						eff = "__recv.length=" + jsVal(er[0][1:]) + ";"
+					case 'd':
+						eff = "delete __recv[" + er[0][1:] + "];"
+					}
+					res, thr := "undefined", "null"
+					switch er[1] {
+					case "!T":
+						thr = "function(){return new TypeError(\"scripted\")}"
+					case "!R":
+						thr = "function(){return new RangeError(\"scripted\")}"
+					default:
+						res = jsVal(er[1])
+					}
+					fmt.Fprintf(&sb, "__script[%d]={eff:function(){%s},res:%s,thr:%s}; __sn=%d; ", i, eff, res, thr, i+1)
+				}
+			}
+			call := "a." + name + "(" + strings.Join(args, ",") + ")"
+			if like {
+				call = "Array.prototype." + name + ".call(" + strings.Join(append([]string{"a"}, args...), ",") + ")"
+			}
+			fmt.Fprintf(&sb, "__log=\"\"; ci=0; rets=[%s]; var r; try { r=__v(%s); } catch(e) { r=__err(e); } out+=r+__log+\"|\";", strings.Join(rets, ","), call)
 		default:
 			panic("bad step " + st)
 		}
@@ -374,6 +437,11 @@ func genC08(c *h.Ctx) {
 	// all elements configurable and writable, comparefn a total order that only identifies identical values)
 	for i := 0; i < c.N(4000, 150000); i++ {
 		genSort(c)
+	}
+	// 6. order of the observable steps: scripted objects as arguments (valueOf/toString log, return the next
+	// scripted value, mutate the receiver or throw), array-like receivers whose length is such an object
+	for i := 0; i < c.N(12000, 400000); i++ {
+		genOrder(c)
 	}
 	// 4. length scenarios: non-configurable elements, non-writable length, then length changes
 	for i := 0; i < c.N(6000, 150000); i++ {
@@ -640,7 +708,8 @@ func genLengthScenario(c *h.Ctx) {
 
 // values with pairwise distinct ToString (so the default SortCompare only identifies identical values)
 var c08SortPool = []string{dTok(0), dTok(1), dTok(2), dTok(3), dTok(10), dTok(21), dTok(-1), dTok(100), dTok(2.5), sTok("a"), sTok("b"), sTok("ab"),
-	sTok(""), sTok("B"), sTok("11"), "T", "F", "n", dTok(math.NaN()), dTok(math.Inf(1))}
+	sTok(""), sTok("B"), sTok("11"), "T", "F", "n", dTok(math.NaN()), dTok(math.Inf(1)),
+	sTok("\ue000"), sTok("\U00010000"), sTok("\uffff"), sTok("\U0001f600"), sTok("a\U00010000"), sTok("a\ue000")}
 var c08SortNums = []string{dTok(0), dTok(1), dTok(2), dTok(3), dTok(10), dTok(21), dTok(-1), dTok(100), dTok(2.5), dTok(-7.5), dTok(1e10), dTok(-1e-3)}
 
 func genSort(c *h.Ctx) {
@@ -666,6 +735,12 @@ func genSort(c *h.Ctx) {
 		}
 	}
 	line := "h a=" + strings.Join(es, ",") + " p="
+	if r.Chance(12) {
+		// an array-like whose length is a scripted object
+		line = "h o=O9|" + strings.Join(es, ",") + " p= call/" + m + "///-~" + dTok(float64(n))
+		c.Add(line, "sort:like:"+m)
+		return
+	}
 	if r.Chance(20) {
 		line += fmt.Sprintf(" del/%s", kTok(strconv.Itoa(r.Intn(n+1))))
 	}
@@ -677,4 +752,145 @@ func genSort(c *h.Ctx) {
 		line += " call/" + m + "//"
 	}
 	c.Add(line, "sort:"+m)
+}
+
+func genOrder(c *h.Ctx) {
+	r := c.Rng
+	n := r.Intn(6)
+	es := make([]string, n)
+	for i := range es {
+		if r.Chance(20) {
+			es[i] = "_"
+		} else {
+			es[i] = genElem(r)
+		}
+	}
+	like := r.Chance(35)
+	lenObj := false
+	var line string
+	if like {
+		l := dTok(float64(n))
+		switch r.Intn(10) {
+		case 0, 1, 2, 3:
+			l = "O9"
+			lenObj = true
+		case 4:
+			l = sTok(strconv.Itoa(n))
+		case 5:
+			l = []string{dTok(float64(n) + 0.5), "u", "n", "T", dTok(math.NaN()), sTok("x")}[r.Intn(6)]
+		case 6:
+			l = dTok(float64(r.Intn(n + 3)))
+		case 7:
+			if r.Chance(30) {
+				l = "-"
+			}
+		}
+		line = "h o=" + l + "|" + strings.Join(es, ",") + " p="
+	} else {
+		line = "h a=" + strings.Join(es, ",") + " p="
+	}
+	// a position argument: a scripted object more often than not
+	nobj := 0
+	pos := func() string {
+		if r.Chance(60) {
+			nobj++
+			return "O" + strconv.Itoa(nobj)
+		}
+		return genNumArg(r, n)
+	}
+	res := func() string {
+		switch k := r.Intn(20); {
+		case k < 2:
+			return "!T"
+		case k == 2:
+			return "!R"
+		case k == 3:
+			return []string{"u", "n", "T", dTok(math.NaN()), sTok("1"), sTok("x"), dTok(2.5)}[r.Intn(7)]
+		case k == 4 && !lenObj:
+			return dTok(float64(-1 - r.Intn(n+2)))
+		case k == 5 && !lenObj:
+			return []string{dTok(math.Inf(1)), dTok(math.Inf(-1)), dTok(-0.5)}[r.Intn(3)]
+		}
+		return dTok(float64(r.Intn(n + 3)))
+	}
+	eff := func() string {
+		if like || r.Chance(70) {
+			return "-"
+		}
+		switch r.Intn(3) {
+		case 0:
+			return "p" + genElem(r)
+		case 1:
+			return "l" + dTok(float64(r.Intn(n+3)))
+		}
+		return "d" + strconv.Itoa(r.Intn(n+1))
+	}
+	steps := 1
+	if r.Chance(20) {
+		steps = 2
+	}
+	for st := 0; st < steps; st++ {
+		nobj = 0
+		m := []string{"slice", "slice", "splice", "splice", "indexOf", "lastIndexOf", "lastIndexOf", "join", "join",
+			"every", "some", "forEach", "map", "filter", "reduce", "reduceRight", "push", "pop", "shift", "unshift", "reverse", "concat"}[r.Intn(22)]
+		var args, rets []string
+		switch m {
+		case "slice":
+			for j := r.Intn(3); j > 0; j-- {
+				args = append(args, pos())
+			}
+		case "splice":
+			for j := r.Intn(3); j > 0; j-- {
+				args = append(args, pos())
+			}
+			if len(args) == 2 {
+				for q := r.Intn(3); q > 0; q-- {
+					args = append(args, genElem(r))
+				}
+			}
+		case "indexOf", "lastIndexOf":
+			args = append(args, genElem(r))
+			if r.Chance(75) {
+				args = append(args, pos())
+			}
+		case "join":
+			if r.Chance(75) {
+				nobj++
+				args = append(args, "O1")
+			} else if r.Chance(50) {
+				args = append(args, sTok("-"))
+			}
+		case "push", "unshift":
+			for j := r.Intn(3); j > 0; j-- {
+				args = append(args, genElem(r))
+			}
+		case "every", "some", "forEach", "map", "filter", "reduce", "reduceRight":
+			if (m == "reduce" || m == "reduceRight") && r.Chance(50) {
+				args = append(args, genElem(r))
+			}
+			for j := r.Intn(n + 2); j > 0; j-- {
+				rets = append(rets, genElem(r))
+			}
+			if r.Chance(30) {
+				m += "!"
+			}
+		}
+		var script []string
+		k := nobj
+		if lenObj {
+			k++
+		}
+		if r.Chance(15) && k > 0 {
+			k--
+		}
+		for j := 0; j < k; j++ {
+			script = append(script, eff()+"~"+res())
+		}
+		if m == "join" && len(script) > 0 && !strings.HasSuffix(script[0], "!T") && !strings.HasSuffix(script[0], "!R") && r.Chance(50) {
+			// a separator that is a string
+			script[0] = script[0][:strings.Index(script[0], "~")+1] + []string{sTok("-"), sTok(""), sTok(", ")}[r.Intn(3)]
+		}
+		line += " call/" + m + "/" + strings.Join(args, ",") + "/" + strings.Join(rets, ",") + "/" + strings.Join(script, ",")
+	}
+	c.Add(line, "order")
 }
